@@ -189,7 +189,10 @@ const HELPERS2: &[&str] = &[
     "abstract_eq", "abstract_ne", "strict_eq", "strict_ne", "abstract_lt", "abstract_gt", "abstract_lte", "abstract_gte",
     "abstract_plus", "abstract_minus", "abstract_div", "abstract_mod",
 ];
-const HELPERS1: &[&str] = &["to_string", "to_number", "parse_float", "to_negative", "strict_eq_same"];
+const HELPERS1: &[&str] = &[
+    "to_string", "to_number", "parse_float", "to_negative", "strict_eq_same", "abstract_eq_same", "abstract_ne_same",
+    "abstract_lt_same", "abstract_gt_same", "abstract_lte_same", "abstract_gte_same", "abstract_plus_same",
+];
 const HELPERSN: &[&str] = &["abstract_max", "abstract_min", "parse_float_add", "parse_float_mul"];
 
 pub fn gen_c01(rng: &mut Rng, count: usize, thorough: bool) -> Vec<Case> {
@@ -595,7 +598,14 @@ pub fn gen_c04_subst(rng: &mut Rng, count: usize) -> Vec<(String, Vec<Value>, Va
 }
 
 fn c05_operand(rng: &mut Rng, depth: usize) -> Value {
-    match rng.below(14) {
+    match rng.below(17) {
+        14 | 15 => {
+            // the corner values of the truthiness table decide here too: as literals ...
+            let c = corner_values();
+            let v = rng.pick(&c).clone();
+            if is_operation(&v) { json!(true) } else { v }
+        }
+        16 => var(&format!("c{}", rng.below(corner_values().len()))), // ... and read from the data
         0 => json!(true),
         1 => json!(false),
         2 => Value::Null,
@@ -620,11 +630,17 @@ fn c05_operand(rng: &mut Rng, depth: usize) -> Value {
 }
 
 pub fn gen_c05(rng: &mut Rng, count: usize, _thorough: bool) -> Vec<Case> {
-    let data = json!({"t": 1, "f": 0, "z": "", "e": []});
+    let mut data = json!({"t": 1, "f": 0, "z": "", "e": []});
+    for (i, c) in corner_values().into_iter().enumerate() {
+        data[format!("c{}", i)] = c;
+    }
     let mut out = Vec::new();
     out.push(apply("regress", json!({"if": [true, "yes", {"==": [1]}]}), Value::Null));
     out.push(apply("regress", json!({"or": [{"var": "a"}, {"log": "LEAK"}]}), json!({"a": 1})));
     out.push(apply("regress", json!({"and": [0, {"log": "LEAK"}, 5]}), Value::Null));
+    for r in [json!({"if": [[0, "a", "b"]]}), json!({"?:": [[false, 1, 2]]}), json!({"or": [[0, 1]]}), json!({"and": [[1, 0]]}), json!({"if": [[]]})] {
+        out.push(apply("regress", r, Value::Null));
+    }
     for name in ["if", "?:", "and", "or"] {
         for n in 0..=7usize {
             let reps = count / 40 + 1;
@@ -702,6 +718,19 @@ pub fn gen_c06(rng: &mut Rng, count: usize, _thorough: bool) -> Vec<Case> {
         out.push(apply(&format!("or/computed-{}", tag), op("or", vec![r.clone(), s("next")]), json!({})));
         out.push(apply(&format!("if/computed-{}", tag), op("if", vec![r.clone(), s("T"), s("F")]), json!({})));
     }
+    // several values at once: each element is judged on its own, whatever its neighbours are
+    // (look-alikes side by side: 0 and "0", false and "false", null and "null", [] and "")
+    let mut mixed = corner_values();
+    mixed.extend([s("0"), s("false"), s("null"), s("true"), s("1"), s("-0"), s("0.0"), s("[]"), s("[object Object]"), int(0), fl(0.0), json!(true)]);
+    for _ in 0..(count / 12).max(40) {
+        let k = 2 + rng.below(5);
+        let xs: Vec<Value> = (0..k).map(|_| rng.pick(&mixed).clone()).collect();
+        let d = json!({"xs": xs});
+        let pred = if rng.chance(1, 2) { var("") } else { op("!!", vec![var("")]) };
+        let o = *rng.pick(&["filter", "all", "some", "none", "map"]);
+        let pred = if o == "map" { op("!!", vec![var("")]) } else { pred };
+        out.push(apply(&format!("{}/mixed", o), op(o, vec![var("xs"), pred]), d));
+    }
     out
 }
 
@@ -759,6 +788,12 @@ fn gen_pairs(rng: &mut Rng, count: usize, thorough: bool, ops: &[&str], helpers:
 
 /// the conversions themselves, on numeric-looking strings (compared bit for bit)
 fn conversion_cases(rng: &mut Rng, n: usize, out: &mut Vec<Case>) {
+    for t in grammar_edge_strings() {
+        out.push(helper("convert:edge", "str_to_number", vec![Value::String(t.clone())]));
+        if t.len() % 3 == 0 {
+            out.push(helper("convert:edge", "parse_float", vec![Value::String(t)]));
+        }
+    }
     for _ in 0..n {
         let t = match rng.below(4) {
             0 => rand_radix_literal(rng),
@@ -766,6 +801,11 @@ fn conversion_cases(rng: &mut Rng, n: usize, out: &mut Vec<Case>) {
             _ => rand_string(rng),
         };
         let t = if rng.chance(1, 5) { format!("{}{}{}", rng.pick(&[" ", "\t", "\u{a0}", "\u{feff}", "\u{85}", "\n"]), t, rng.pick(&["", " ", "\u{2028}", "\u{85}", "x"])) } else { t };
+        let t = if rng.chance(1, 3) {
+            // a short seed literal keeps the edit near the interesting positions
+            let seed = if rng.chance(1, 2) { rng.pick(&["0x10", "0b11", "0o17", "1.5e3", "-1e-2", "Infinity", "-Infinity", ".5", "5.", "1e5", "+7", "0X1f"]).to_string() } else { t };
+            mutate_numeric(rng, &seed)
+        } else { t };
         out.push(helper("convert:str_to_number", "str_to_number", vec![Value::String(t.clone())]));
         out.push(helper("convert:to_number", "to_number", vec![Value::Array(vec![Value::String(t.clone())])]));
         out.push(helper("convert:parse_float", "parse_float", vec![Value::String(t)]));
@@ -781,6 +821,10 @@ pub fn gen_c07(rng: &mut Rng, count: usize, thorough: bool) -> Vec<Case> {
         (fl(1.0), s("1.0")), (fl(1e21), s("1e+21")), (fl(1e21), json!([fl(1e21)])), (json!([fl(0.1)]), s("0.1")),
     ];
     let mut out = gen_pairs(rng, count * 4 / 5, thorough, &["==", "!="], &["abstract_eq", "abstract_ne"], &extra);
+    for v in core_values().iter().chain(arrays().iter()).chain(objects().iter()) {
+        out.push(helper("same-ref", "abstract_eq_same", vec![v.clone()]));
+        out.push(helper("same-ref", "abstract_ne_same", vec![v.clone()]));
+    }
     conversion_cases(rng, count / 15, &mut out);
     // a string against the number it denotes (and its neighbours), through == itself
     while out.len() < count {
@@ -839,6 +883,11 @@ pub fn gen_c09(rng: &mut Rng, count: usize, thorough: bool) -> Vec<Case> {
         let d = json!({"a": a, "b": b, "c": c});
         for o in ["<", "<=", ">", ">="] {
             out.push(apply(&format!("between:{}", o), op(o, vec![var("a"), var("b"), var("c")]), d.clone()));
+        }
+    }
+    for v in core.iter() {
+        for h in ["abstract_lt_same", "abstract_gt_same", "abstract_lte_same", "abstract_gte_same"] {
+            out.push(helper("same-ref", h, vec![v.clone()]));
         }
     }
     out.push(apply("regress", json!({"<": [[10], [9], [91]]}), Value::Null));
@@ -1078,7 +1127,29 @@ pub fn gen_c12(rng: &mut Rng, count: usize, _thorough: bool) -> Vec<Case> {
     out
 }
 
+/// a lookup inside the element: every spelling of a key (text, integer, integer as text,
+/// negative, dotted, bracketed, with a default) - the element is the whole data in there
+fn elem_var(rng: &mut Rng) -> Value {
+    match rng.below(12) {
+        0 => var("0"),
+        1 => var("1"),
+        2 => var("-1"),
+        3 => op("var", vec![s("1")]),
+        4 => op("var", vec![int(0)]),
+        5 => op("var", vec![int(-1)]),
+        6 => var("a.b"),
+        7 => op("var", vec![s("a"), s("dflt")]),
+        8 => op("var", vec![s("2"), int(7)]),
+        9 => var("b"),
+        10 => op("var", vec![s("-2")]),
+        _ => var("0.a"),
+    }
+}
+
 fn elem_expr(rng: &mut Rng, depth: usize) -> Value {
+    if rng.chance(1, 6) {
+        return elem_var(rng);
+    }
     match rng.below(14) {
         0 => var(""),
         1 => op("+", vec![var(""), int(1)]),
@@ -1114,9 +1185,9 @@ fn collection(rng: &mut Rng) -> (Value, Value) {
     // (collection expression, outer data)
     let elems: Vec<Value> = (0..rng.below(5))
         .map(|_| match rng.below(6) {
-            0 => json!({"a": 1}),
+            0 => rng.pick(&[json!({"a": 1}), json!({"a": {"b": 7}}), json!({"a": null, "b": 0}), json!({"0": "zero", "1": "one"})]).clone(),
             1 => json!({"b": 2}),
-            2 => Value::Array((0..rng.below(3)).map(|_| int(rng.range(0, 3))).collect()),
+            2 => Value::Array((0..rng.below(4)).map(|_| if rng.chance(1, 4) { json!({"a": 5}) } else { int(rng.range(0, 3)) }).collect()),
             3 => Value::String(rand_string(rng)),
             4 => json!({"var": "outer"}),
             _ => rand_scalar(rng),
@@ -1237,6 +1308,7 @@ pub fn gen_c15(rng: &mut Rng, count: usize, _thorough: bool) -> Vec<Case> {
         json!({"in": [2.0, [1, 2, 3]]}), json!({"in": [0, [-0.0]]}), json!({"in": [1, [1.0]]}), json!({"in": [[1.0, {"a": 2}], [[1, {"a": 2.0}]]]}),
         json!({"in": [{"a": 1, "b": 2}, [{"b": 2, "a": 1.0}]]}), json!({"in": [{"a": 1}, [{"a": 1, "b": 2}]]}), json!({"in": ["1", [1]]}),
         json!({"in": [1e-17, [0, 1]]}), json!({"in": [{"+": [0.1, 0.2]}, [0.3]]}), json!({"in": [1e-20, [2e-20, 3e-20]]}), json!({"in": [{"a": [1e-18]}, [{"a": [0]}]]}),
+        json!({"merge": [[1, [2, 3]]]}), json!({"merge": [[[1], [2]]]}), json!({"merge": [[[]]]}),
         json!({"merge": [1, null, [2]]}), json!({"merge": null}), json!({"merge": [[1, [2]], [[3]]]}), json!({"merge": []}), json!({"merge": [[]]}),
         json!({"in": ["é", "héllo"]}), json!({"in": ["", "abc"]}), json!({"in": ["abc", ""]}), json!({"in": [1, "123"]}), json!({"in": ["a", null]}),
         json!({"in": ["a", 5]}), json!({"in": ["a", {"a": 1}]}), json!({"in": [null, [null]]}), json!({"in": [[], [[]]]}), json!({"in": [[1], [[1, 2]]]}),
@@ -1254,6 +1326,21 @@ pub fn gen_c15(rng: &mut Rng, count: usize, _thorough: bool) -> Vec<Case> {
                 1 => Value::Null,
                 _ => rng.pick(&vals).clone(),
             }).collect();
+            if rng.chance(1, 2) {
+                // written in the rule: one level is spliced, whatever the operand count (a single
+                // array operand included) and however deep the operand nests
+                let lits: Vec<Value> = args.iter().map(|a| match a {
+                    Value::Array(xs) if rng.chance(1, 2) => {
+                        let mut ys = xs.clone();
+                        ys.push(Value::Array((0..rng.below(3)).map(|_| rand_value(rng, 1)).collect()));
+                        Value::Array(ys)
+                    }
+                    a if is_operation(a) => int(0),
+                    a => a.clone(),
+                }).collect();
+                out.push(apply("merge-literal", op("merge", lits), Value::Null));
+                continue;
+            }
             let refs: Vec<Value> = (0..n).map(|i| op("var", vec![int(i as i64)])).collect();
             out.push(apply("merge", op("merge", refs), Value::Array(args)));
         } else {
@@ -1307,6 +1394,7 @@ pub fn gen_c16(rng: &mut Rng, count: usize, thorough: bool) -> Vec<Case> {
         json!({"substr": ["é", -1]}), json!({"substr": ["héllo", 0, -1]}), json!({"substr": ["héé", -2]}), json!({"substr": ["日本語", -1]}),
         json!({"substr": ["😀😀", 0, -1]}), json!({"cat": ["Hello, ", {"var": "name"}]}), json!({"cat": [null]}), json!({"cat": ["a", null, "b"]}),
         json!({"cat": [[null, 1], {}, true, 1.5, 1e21, -0.0, [[1, [2]]]]}), json!({"cat": []}), json!({"cat": "x"}), json!({"substr": ["abc", 1.5]}),
+        json!({"cat": [["a", "b"]]}), json!({"cat": [[["a"], "b"]]}), json!({"cat": ["ab", []]}), json!({"cat": ["ab", [], "c"]}), json!({"cat": [[1, [], 2]]}),
         json!({"substr": [123, 1]}), json!({"substr": ["abc", "1"]}), json!({"substr": ["abc", 1, 1.5]}), json!({"substr": ["abc", 18446744073709551615u64]}),
     ];
     for r in regress {
@@ -1368,6 +1456,20 @@ pub fn gen_c17_pool(rng: &mut Rng, n: usize) -> Vec<(Value, Value)> {
     ] {
         pool.push((r, d1.clone()));
     }
+    // results that list or count several things: any per-call randomness (hashing, allocation
+    // order) or leftover state would show as a different order or content from call to call
+    let d2 = json!({"a": 1, "e": 5, "rows": [{"k": "x", "v": 1}, {"k": "y", "v": 2}, {"k": "x", "v": 3}], "tags": ["t3", "t1", "t2", "t1"],
+                    "obj": {"z": 1, "y": 2, "x": 3, "w": 4, "v": 5, "u": 6, "t": 7, "s": 8}});
+    for r in [
+        json!({"missing_some": [4, ["b", "c", "d", "b"]]}), json!({"missing_some": [3, ["z", "y", "a", "x", "y", "w", "z"]]}),
+        json!({"missing": ["q", "p", "a", "o", "n", "m", "e", "l", "k", "q"]}), json!({"missing": [["h", "g", "f", "e", "d", "c", "b", "a"]]}),
+        json!({"merge": [{"var": "tags"}, {"var": "tags"}, ["t0"]]}), json!({"filter": [{"var": "rows"}, {"===": [{"var": "k"}, "x"]}]}),
+        json!({"map": [{"var": "rows"}, {"var": "k"}]}), json!({"var": "obj"}), json!({"cat": [{"var": "tags"}, {"var": "obj"}]}),
+        json!({"in": [{"w": 4, "x": 3}, [{"x": 3, "w": 4}]]}), json!({"reduce": [{"var": "tags"}, {"cat": [{"var": "accumulator"}, {"var": "current"}]}, ""]}),
+        json!({"filter": [[0, "0", false, "false", null, "null", [], ""], {"var": ""}]}), json!({"all": [{"var": "tags"}, {"in": ["t", {"var": ""}]}]}),
+    ] {
+        pool.push((r, d2.clone()));
+    }
     // a deep failing rule
     let mut deep = json!({"-": ["abc", 1]});
     for _ in 0..50 {
@@ -1390,6 +1492,43 @@ pub fn gen_c17_pool(rng: &mut Rng, n: usize) -> Vec<(Value, Value)> {
         pool.push((norm(&r), norm(&rand_data(rng))));
     }
     pool
+}
+
+/// C17 through the other entry points: one interpreter serves every call of a run, so anything
+/// a wrapper keeps between calls is seen by the later ones.  Look-alike top-level values
+/// (1, true, 1.0; 0, false, 0.0, -0.0; "", [], {} and null) in shuffled order, twice, and the
+/// pool's own calls repeated.
+pub fn gen_c17_plain(rng: &mut Rng, count: usize) -> Vec<Case> {
+    let rules = vec![
+        var(""), op("cat", vec![var("")]), op("===", vec![var(""), int(1)]), op("!!", vec![var("")]), op("+", vec![var(""), int(1)]),
+        op("===", vec![var(""), json!(true)]), op("if", vec![var(""), s("T"), s("F")]), op("merge", vec![var(""), json!([1])]),
+        op("===", vec![var(""), int(0)]), op("in", vec![var(""), json!([1, true, "1", 0, false, ""])]),
+    ];
+    let datas = vec![
+        int(1), json!(true), fl(1.0), int(0), json!(false), fl(0.0), fl(-0.0), s(""), s("1"), json!([]), json!([1]), json!({}), Value::Null, int(2), fl(2.0),
+        s("true"), json!([true]), uint(u64::MAX), int(-1), s("0"),
+    ];
+    let mut out = Vec::new();
+    let pool = gen_c17_pool(rng, 40);
+    while out.len() < count {
+        let mut order: Vec<usize> = (0..datas.len()).collect();
+        for i in (1..order.len()).rev() {
+            order.swap(i, rng.below(i + 1));
+        }
+        let r = rng.pick(&rules).clone();
+        for i in order.iter() {
+            out.push(apply("lookalike", r.clone(), datas[*i].clone()));
+        }
+        for _ in 0..6 {
+            let (pr, pd) = rng.pick(&pool).clone();
+            if json_depth(&pr) < 100 {
+                out.push(apply("pool", pr.clone(), pd.clone()));
+                out.push(apply("pool-again", pr, pd));
+            }
+        }
+    }
+    out.truncate(count);
+    out
 }
 
 /// replace `log` by `!!` (thread runs cannot attribute log lines)
